@@ -41,8 +41,9 @@ FrameOk(r) ==
     /\ ~r.cerr /\ r.chdr = e /\ r.ctotal = Len(e) + r.plen /\ r.cpayOK
     /\ r.inhdr = e                    \* the harness' own codec is validated too
     /\ r.rerr = "nil" /\ r.rh = NormH(r.h) /\ r.rpayOK /\ r.rconsumed = Len(e) + r.plen
+    /\ r.mustOK
 
-FrameCutOk(r) == r.rerr # "nil"
+FrameCutOk(r) == r.rerr # "nil" /\ r.mustPanics
 
 \* one streaming reader decoding the headers r.hs one after the other
 SeqOk(r) ==
